@@ -165,6 +165,21 @@ def erunState (result : Call → Nat) : EState → List EOp → EState
   | st, [] => st
   | st, op :: ops => erunState result (estep result st op).1 ops
 
+/-- The value `connect(func, …)` returns: `func` itself (event.py:108 `return func`), so that
+`@emitter.connect def on_x(…)` leaves the name `on_x` bound to the function.  The decorator form with
+arguments, `emitter.connect(event=…, sender=…, last=…)(func)`, is `partial(self.connect, …)(func)`
+(event.py:98-99) and therefore returns the same value.  `none` = `connect` raised `ValueError`. -/
+def connectRet (r : ConnReq) : Option Nat :=
+  match connectCb r with
+  | some _ => some r.id
+  | none => none
+
+/-- what the connects of a history return, in order -/
+def connectRets : List EOp → List (Option Nat)
+  | [] => []
+  | .connect r :: ops => connectRet r :: connectRets ops
+  | _ :: ops => connectRets ops
+
 /-! ### ProgressReporter -/
 
 inductive ROp where
@@ -215,5 +230,35 @@ def rrun : RState → List ROp → List (RState × ROp × RState × ROut)
   | st, op :: ops =>
     let (st', out) := rstep st op
     (st, op, st', out) :: rrun st' ops
+
+/-- `is_complete()` (event.py:291-293): `self._value >= self._value_max` -/
+def isComplete (st : RState) : Bool := decide (st.value ≥ st.max)
+
+/-- the `progress` property (event.py:299-302): `self._value / float(self._value_max)` as the fraction
+(value, max); `none` = `ZeroDivisionError` (maximum 0, which is the initial state) -/
+def progressFrac (st : RState) : Option (Int × Int) :=
+  if st.max = 0 then none else some (st.value, st.max)
+
+/-- an event a reporter emits -/
+inductive REv where
+  | progress (value max : Int)
+  | complete
+deriving Repr, DecidableEq
+
+/-- the events of one operation in emission order: `_set_value` emits `progress` first and `complete`
+after it (event.py:249-251) -/
+def ROut.events (o : ROut) : List REv :=
+  (match o.progress with | some (v, m) => [REv.progress v m] | none => []) ++
+    (if o.complete then [REv.complete] else [])
+
+/-- A reporter with messages (`set_progress_message` / `set_complete_message`, event.py:224-243: two
+callbacks connected with `sender=self`): which events print their message.  `_default_on_progress`
+(event.py:174-182) prints nothing when the maximum is 0 or the value exceeds it; `_default_on_complete`
+(event.py:185-189) always prints. -/
+def printsMessage : REv → Bool
+  | .progress v m => m != 0 && decide (v ≤ m)
+  | .complete => true
+
+def ROut.printed (o : ROut) : List REv := o.events.filter printsMessage
 
 end PhyVerif.C19
